@@ -405,9 +405,13 @@ vf::Result check(const Case& c) {
                                     "observations differ before any further call (" + what + "): " + d);
         }
     }
-    // registers no peripheral models and no history of this harness ever writes: their read-back is part of "straight after
-    // construction" too (plain storage must not start out as whatever the heap held)
+    // registers no peripheral models: their read-back is part of "straight after construction" too (plain storage must not start
+    // out as whatever the heap held)
+    // (fresh mode only: a history before the Reset can reach such a cell after all -- move the MMIO window to the top of the data
+    //  space and let an interrupt entry push onto a stack that wraps into it -- and plain storage is not part of Reset, see section 9)
     for (uint16_t off : {0x100, 0x102, 0x01E, 0x02C, 0x02E, 0x03C, 0x03E, 0x20E, 0x210, 0x300, 0x5FE, 0x7FE}) {
+        if (c.mode != 0)
+            break;
         uint16_t va = a->t->MMIORead(off), vb = b->t->MMIORead(off);
         if (va != vb)
             return vf::Result::fail(std::string("C17:") + (c.mode ? "reset:" : "fresh:") + "plain-cell:" + vf::hex(off),
